@@ -554,3 +554,23 @@ func (c *c05Case) UnmarshalJSON(data []byte) error {
 	}
 	return nil
 }
+
+// DriveFuzz drives a rapid generator with Go's native coverage-guided fuzzer (rapid.MakeFuzz turns the fuzzer's bytes
+// into the generator's random stream): the search over generator decisions is guided by coverage of the code under
+// test. A failing case is written as a replay file like everywhere else.
+func DriveFuzz[C any](f *testing.F, p Prop[C]) {
+	f.Add([]byte{})
+	f.Add([]byte{1, 2, 3, 4, 5, 6, 7, 8, 9, 10, 11, 12, 13, 14, 15, 16})
+	f.Fuzz(rapid.MakeFuzz(func(rt *rapid.T) {
+		c := p.Gen(rt)
+		raw, err := json.Marshal(c)
+		if err != nil {
+			return
+		}
+		v := safeRun(p.Run, c)
+		if v.Fail != "" {
+			writeFail(p.ID, p.Name, raw, v.Fail)
+			rt.Fatalf("%s/%s: %s", p.ID, p.Name, v.Fail)
+		}
+	}))
+}
